@@ -298,7 +298,7 @@ func functionEnv(f starlark.Callable) (starlark.Value, error) {
 
 // envPickler provides support for pickling functions and modules.
 //
-// - Builtins are pickled as (NEWOBJ "dawn" "Builtin" ())
+// - Builtins are pickled as (NEWOBJ "dawn" "Builtin" (name))
 // - Function code is pickled as (NEWOBJ "dawn" "FunctionCode" (module, globals, bytecode))
 // - Functions are pickled as (NEWOBJ "dawn" "Function" (defaults, freevars, code)).
 func envPickler(x starlark.Value) (module, name string, args starlark.Tuple, err error) {
@@ -306,7 +306,7 @@ func envPickler(x starlark.Value) (module, name string, args starlark.Tuple, err
 	case *function:
 		return "dawn", "Target", starlark.Tuple{starlark.String(x.label.String())}, nil
 	case *starlark.Builtin:
-		return "dawn", "Builtin", starlark.Tuple{}, nil
+		return "dawn", "Builtin", starlark.Tuple{starlark.String(x.Name())}, nil
 	case *starlark.FunctionCode:
 		module, globals := x.ModuleEnv()
 		return "dawn", "FunctionCode", starlark.Tuple{module, globals, starlark.Bytes(x.Bytecode())}, nil
@@ -341,7 +341,7 @@ func (envPicklerT) PickleRecursive(x starlark.Value) (module, name string, args 
 
 // envUnpickler provides support for unpickling functions and modules.
 //
-//   - Builtins are unpickled from (NEWOBJ "dawn" "Builtin" ()) into ()
+//   - Builtins are unpickled from (NEWOBJ "dawn" "Builtin" (name)) into (name)
 //   - Function code is unpickled from (NEWOBJ "dawn" "FunctionCode" (module, globals, bytecode))
 //     into a dictionary.
 //   - Functions are unpickled from (NEWOBJ "dawn" "Function" (defaults, freevars, code))
@@ -363,8 +363,9 @@ func envUnpickler(module, name string, args starlark.Tuple) (starlark.Value, err
 		}
 		return starlark.Tuple{starlark.String("recursive reference"), args[0]}, nil
 	case "Builtin":
-		if len(args) != 0 {
-			return nil, fmt.Errorf("expected 0 args, got %v", len(args))
+		// Environments recorded by older versions did not name the builtin.
+		if len(args) > 1 {
+			return nil, fmt.Errorf("expected at most 1 arg, got %v", len(args))
 		}
 		return args, nil
 	case "FunctionCode":
